@@ -289,4 +289,49 @@ theorem fullInv_runT : ∀ (ops : List Op) (env : Env) (p : Partition), TableWF 
     obtain ⟨a, b⟩ := fullInv_stepT hw h h1
     exact ih _ _ a b h2
 
+/-! ### the hypotheses are decidable (used by the non-vacuity examples) -/
+
+instance (tbl : Table) (p : Partition) (old new : List SectorInfo) : Decidable (ReplaceWF tbl p old new) :=
+  decidable_of_iff ((nums old).Nodup ∧ (∀ i ∈ old, alookup i.num tbl = some i) ∧ (nums new).Nodup ∧
+    (∀ x ∈ nums new, x ∈ p.sectors → x ∈ nums old))
+    ⟨fun ⟨a, b, c, d⟩ => ⟨a, b, c, d⟩, fun ⟨a, b, c, d⟩ => ⟨a, b, c, d⟩⟩
+
+instance : ∀ op, Decidable (OpWF op)
+  | .recordFaults sn _ => inferInstanceAs (Decidable sn.Nodup)
+  | .declareFaultsRecovered sn => inferInstanceAs (Decidable sn.Nodup)
+  | .terminateSectors _ sn => inferInstanceAs (Decidable sn.Nodup)
+  | .recordSkippedFaults _ sk => inferInstanceAs (Decidable sk.Nodup)
+  | .rescheduleExpirations _ sn => inferInstanceAs (Decidable sn.Nodup)
+  | .addSectors _ _ => isTrue trivial
+  | .recoverFaults => isTrue trivial
+  | .activateUnproven => isTrue trivial
+  | .recordMissedPost _ => isTrue trivial
+  | .popExpiredSectors _ => isTrue trivial
+  | .replaceSectors _ _ => isTrue trivial
+  | .popEarlyTerminations _ => isTrue trivial
+
+instance (tbl : Table) : ∀ op, Decidable (OpWF2 tbl op)
+  | .addSectors _ infos => inferInstanceAs (Decidable ((nums infos).Nodup ∧ ∀ i ∈ infos, alookup i.num tbl = some i))
+  | .recordFaults _ _ => isTrue trivial
+  | .declareFaultsRecovered _ => isTrue trivial
+  | .terminateSectors _ _ => isTrue trivial
+  | .recordSkippedFaults _ _ => isTrue trivial
+  | .rescheduleExpirations _ _ => isTrue trivial
+  | .recoverFaults => isTrue trivial
+  | .activateUnproven => isTrue trivial
+  | .recordMissedPost _ => isTrue trivial
+  | .popExpiredSectors _ => isTrue trivial
+  | .replaceSectors _ _ => isTrue trivial
+  | .popEarlyTerminations _ => isTrue trivial
+
+instance (env : Env) (p : Partition) (op : Op) : Decidable (OpOK env p op) := by
+  unfold OpOK
+  cases op <;> exact inferInstance
+
+instance : ∀ (ops : List Op) (env : Env) (p : Partition), Decidable (RunOK env p ops)
+  | [], _, _ => isTrue trivial
+  | op :: rest, env, p =>
+    have := instDecidableRunOK rest (stepT env p op).1 (stepT env p op).2
+    inferInstanceAs (Decidable (OpOK env p op ∧ RunOK (stepT env p op).1 (stepT env p op).2 rest))
+
 end BA.Sector
